@@ -359,6 +359,156 @@ func checkC04(c *Ctx) {
 	}
 	r.Analysed["paths_enumerated"] = total
 
+	// ---- E5: what is judged readable or unreadable is the caller's data text itself: the JSON decoder reads the text the
+	// entry point was given, passed through unchanged (a reader that strips, trims or repairs its input first turns
+	// unreadable data into a verdict)
+	r.Rule("C04.E5", "the JSON decoder reads the data text the entry point was given, unchanged", 1)
+	e5 := 0
+	for _, fn := range p.ModuleFuncs() {
+		if RelPkg(fn) != "internal/validator" || strings.HasSuffix(p.Fset.Position(fn.Pos()).Filename, "_test.go") {
+			continue
+		}
+		for _, b := range fn.Blocks {
+			for _, ins := range b.Instrs {
+				ci, ok := ins.(ssa.CallInstruction)
+				if !ok {
+					continue
+				}
+				n := funcFullName(ssaCalleeObj(ci))
+				if n != "encoding/json.NewDecoder" && n != "encoding/json.Unmarshal" {
+					continue
+				}
+				e5++
+				origin := ci.Common().Args[0]
+				for {
+					switch x := origin.(type) {
+					case *ssa.Convert:
+						origin = x.X
+						continue
+					case *ssa.ChangeType:
+						origin = x.X
+						continue
+					case *ssa.MakeInterface:
+						origin = x.X
+						continue
+					case *ssa.Call:
+						switch funcFullName(ssaCalleeObj(x)) {
+						case "bytes.NewReader", "strings.NewReader", "bytes.NewBuffer", "bytes.NewBufferString":
+							origin = x.Call.Args[0]
+							continue
+						}
+					}
+					break
+				}
+				prm, isParam := origin.(*ssa.Parameter)
+				why := "the JSON decoder is given " + origin.String() + ", not the caller's data text"
+				if isParam {
+					if okUp, w := textPassedThrough(p, fn, prm, 0, map[*ssa.Function]bool{}); !okUp {
+						isParam, why = false, w
+					}
+				}
+				r.Check(isParam, "C04.E5", FuncKey(fn)+"#decoded-text", p.Pos(ins.Pos()), "the decoder reads the data text the entry point was given", why+": data the caller would see rejected is repaired or altered before it is judged")
+			}
+		}
+	}
+	if e5 == 0 {
+		r.Unknown("C04.E5", "json-decode-sites", "", "no JSON decoder call found in internal/validator")
+	}
+
+	// ---- E6: the decode is unconditional: in the function that decodes the text, the decode call dominates the call that
+	// normalises the decoded value (a loop such as `for decoder.More() { Decode }` runs zero times on empty input and lets an
+	// unread document through as an empty graph)
+	r.Rule("C04.E6", "the JSON decode dominates the normalisation of its result", 1)
+	e6 := 0
+	for fn := range dm.reachesDecode {
+		if !dm.reachesFlat[fn] || fn.Blocks == nil {
+			continue
+		}
+		var decodes, normals []ssa.Instruction
+		for _, b := range fn.Blocks {
+			for _, ins := range b.Instrs {
+				ci, ok := ins.(ssa.CallInstruction)
+				if !ok {
+					continue
+				}
+				if _, isDefer := ins.(*ssa.Defer); isDefer {
+					continue
+				}
+				if isJSONDecode(ssaCalleeObj(ci)) {
+					decodes = append(decodes, ins)
+				}
+				if callee := ci.Common().StaticCallee(); callee != nil && dm.reachesDecode[callee] && !dm.reachesFlat[callee] {
+					decodes = append(decodes, ins) // a stage that only decodes
+				}
+				if callee := ci.Common().StaticCallee(); callee != nil && dm.reachesFlat[callee] && !dm.reachesDecode[callee] {
+					normals = append(normals, ins)
+				}
+			}
+		}
+		if len(decodes) == 0 || len(normals) == 0 {
+			continue // an outer function: the decode and the normalisation happen in a callee
+		}
+		e6++
+		okDom := true
+		for _, n := range normals {
+			dominated := false
+			for _, d := range decodes {
+				if d.Block() == n.Block() {
+					// same block: the decode must come first
+					for _, ins := range d.Block().Instrs {
+						if ins == d {
+							dominated = true
+							break
+						}
+						if ins == n {
+							break
+						}
+					}
+				} else if d.Block().Dominates(n.Block()) {
+					dominated = true
+				}
+			}
+			if !dominated {
+				okDom = false
+			}
+		}
+		r.Check(okDom, "C04.E6", FuncKey(fn)+"#decode-before-normalise", p.Pos(fn.Pos()), "every path to the normalisation passes through the decode call", "the normalisation of the document can be reached without passing through the JSON decode (the decode sits in a loop or branch): a text that is never decoded is treated as an empty document and yields a verdict")
+	}
+	if e6 == 0 {
+		r.Unknown("C04.E6", "data-stage", "", "no function that both decodes and normalises the data text was found")
+	}
+
+	// ---- E7: explicit panics on the data path carry a non-nil value (go 1.19 semantics: recover() returns nil for
+	// panic(nil) and the boundary would report success)
+	r.Rule("C04.E7", "explicit panics on the data path never carry a nil value", 1)
+	e7 := 0
+	var dataRoots []*ssa.Function
+	for fn := range dm.reachesDecode {
+		if dm.reachesFlat[fn] {
+			dataRoots = append(dataRoots, fn)
+		}
+	}
+	for _, fn := range sortedFuncs(p.Reach(dataRoots...)) {
+		if !dm.reachesFlat[fn] && !dm.reachesDecode[fn] && RelPkg(fn) != "internal/validator" {
+			continue
+		}
+		ord := ordinal{}
+		for _, b := range fn.Blocks {
+			for _, ins := range b.Instrs {
+				pi, ok := ins.(*ssa.Panic)
+				if !ok {
+					continue
+				}
+				e7++
+				why, okv := panicValueNonNil(pi.X, pi.Block(), 0)
+				r.Check(okv, "C04.E7", ord.next(FuncKey(fn)+"#panic"), p.Pos(pi.Pos()), "panic value is not nil: "+why, "the value passed to panic may be nil ("+why+"): recover() then returns nil, the boundary reports success and unreadable data yields a verdict")
+			}
+		}
+	}
+	if e7 == 0 {
+		r.OK("C04.E7", "census", "", "no explicit panic on the data path")
+	}
+
 	if c.Thorough() {
 		c04JS(c)
 	}
@@ -425,11 +575,13 @@ func localErrorDiscipline(c *Ctx, rule string, fn *ssa.Function, errCalls []ssa.
 		}
 		// the error may be kept in a local cell (named result / reassigned variable): follow one store-load hop
 		var tested []ssa.Value
+		errCells := map[*ssa.Alloc]bool{}
 		for _, ev := range errVals {
 			tested = append(tested, ev)
 			for _, ref := range nonDebugRefs(ev) {
 				if st, ok := ref.(*ssa.Store); ok && st.Val == ev {
 					if a, ok := st.Addr.(*ssa.Alloc); ok {
+						errCells[a] = true
 						for _, r2 := range nonDebugRefs(a) {
 							if ld, ok := r2.(*ssa.UnOp); ok && ld.Op == token.MUL && ld.Block() == st.Block() {
 								tested = append(tested, ld)
@@ -466,7 +618,12 @@ func localErrorDiscipline(c *Ctx, rule string, fn *ssa.Function, errCalls []ssa.
 					for _, t := range tested {
 						preset[t] = AV{Kind: avNonNil, Origin: ci.(ssa.Instruction), Index: idx}
 					}
-					outs := eng.RunFrom(fn, nonNil, blk, preset)
+					// the cell the error was stored in holds that (non-nil) error when the branch is entered
+					cells := map[*ssa.Alloc]AV{}
+					for a := range errCells {
+						cells[a] = AV{Kind: avNonNil, Origin: ci.(ssa.Instruction), Index: idx}
+					}
+					outs := eng.RunFromCells(fn, nonNil, blk, preset, cells)
 					if eng.over {
 						msg = "the non-nil branch of the error test leads into too many paths to enumerate (it does not leave the function promptly)"
 						continue
